@@ -8,6 +8,7 @@ import ZygoVerif.Spec.Stratified
 import ZygoVerif.Spec.Spacing
 import ZygoVerif.Model.InfixFront
 import ZygoVerif.Proofs.InfixFrontEnd
+import ZygoVerif.Proofs.PrattStratBlock
 namespace ZygoVerif.Pratt
 open ZygoVerif.Stratified
 
@@ -130,10 +131,13 @@ def InFragment (T : Table) (ts : List Sx) : Prop :=
   inScope (grammarOf T) ts = true ∧
   ∀ t ∈ ts, (lbp T t).isSome ∧ (nudOf T t = .atom ∨ ∃ n r, nudOf T t = .pre n r)
 
-/-- THE FULL STATEMENT (visible, not proved for unbounded length in this file): for every
-well-formed table and every token list of the fragment — malformed ones included — the Pratt
-loop of pratt.go and the stratified recursive-descent parser over the levels the table
-induces return the same tree and the same unconsumed rest. -/
+/-- THE FULL STATEMENT IN ITS ORIGINAL FORM (visible, NOT proved): for EVERY well-formed table and
+every token list of the fragment, with the concrete fuel of the two models. What is proved instead,
+for token lists of unbounded length: `pratt_iff_stratified` / `expand_iff_statements` below — the
+same statement for the table of the current tree and the documented levels, fuel-free ("returns …
+with enough fuel"). Missing for this form: (1) that `fuelFor` always suffices (a bound on the
+recursion depth of both parsers), (2) the generalisation from the regenerated table to every
+well-formed table (`grammarOf T` in place of `documented`). -/
 def PrattEqStratified : Prop :=
   ∀ (T : Table) (ts : List Sx), WellFormedTable T → InFragment T ts →
     expression T 0 ts = Stratified.parse (grammarOf T) ts
@@ -161,6 +165,73 @@ first, adjacent operators, adjacent operands, trailing operator) — expands to 
 statements under the Pratt model and under the stratified specification. Kernel-checked. -/
 theorem pratt_eq_stratified_partial :
     ((listsOfLen alphabet 1 ++ listsOfLen alphabet 2 ++ listsOfLen alphabetCore 3).all agree) = true := by
+  decide +kernel
+
+/-! ### the Pratt loop equals the stratified grammar — token lists of unbounded length
+
+Fuel is an artefact of the models (pratt.go has none), so the statements are about what the two
+parsers return "with enough fuel" (`PE`, `SS`, `Stmts`; more fuel never changes a result:
+`Pratt.mono`, `Stratified.mono`). They are about the table REGENERATED from the current tree and
+the documented levels; the link between the two (`corr_generated`: every operator of a documented
+level has that level's binding power and the `MunchLeft` its role says, every other token binds
+with 0, prefix operators recurse with their level's power) is re-established by `decide` on every
+run, with the binding powers read off the table. -/
+
+/-- The fragment, as a test: no token (at any depth of selectors) is `if`, `for`, `break`, `continue`
+or unknown to `LeftBindingPower`, and the specification speaks about the list (`inScope`: an
+operator without right operand is not directly followed by a tighter operator). -/
+def inFragmentB (ts : List Sx) : Bool := fragList (okTok Table.generated) ts && inScope documented ts
+
+theorem frag_of_B {ts : List Sx} (h : inFragmentB ts = true) : Frag Table.generated documented ts := by
+  simp only [inFragmentB, inScope, Bool.and_eq_true] at h
+  exact ⟨h.1, h.2.1, h.2.2⟩
+
+theorem noFor_of_B {ts : List Sx} (h : inFragmentB ts = true) : noFor ts := by
+  intro t ht
+  have hok : okTok Table.generated t = true :=
+    fragTok_top _ t (fragList_mem _ ts (frag_of_B h).1 t ht)
+  cases hn : t.isNamed "for" with
+  | false => rfl
+  | true =>
+    exfalso
+    have hs : t.symName? = some "for" := by simpa [Sx.isNamed] using hn
+    have hnud : nudOf Table.generated t = .forop := by
+      unfold nudOf; rw [hs]; decide +kernel
+    simp [okTok, okNudB, hnud] at hok
+
+/-- **pratt_iff_stratified** (one expression): for EVERY token list of the fragment — any length,
+selectors nested to any depth, malformed lists included — and every result (tree, unconsumed rest):
+`Pratt.Expression(0)` of pratt.go (model, regenerated table) returns it iff the textbook stratified
+recursive-descent parser over the documented levels returns it. Hence one of them fails or never
+returns iff the other does. Proof: `Proofs/PrattStrat.lean` (`Expression(rbp)` = the parse at the
+levels binding tighter than `rbp`; its loop = the chains of those levels, cut at each level's
+binding power; the stop property of `Expression` lets a chain go on where the loop goes on). -/
+theorem pratt_iff_stratified (ts : List Sx) (h : inFragmentB ts = true) (E : Sx) (r : Sx × List Sx) :
+    (∃ f, expr Table.generated f 0 E ts = some (r.1, E, r.2)) ↔ (∃ f, strat documented E f documented ts = some r) :=
+  pratt_iff_strat corr_generated ts (frag_of_B h) E r
+
+/-- **The statements of a block**: `InfixExpandArray` (model) returns the statement list `out` iff
+`out` is the list of stratified statements of the tokens (`Stmts`: one expression at the loosest
+level, one `;` skipped, an expression that is just `;` is no statement). -/
+theorem expand_iff_statements (ts : List Sx) (hne : ts ≠ []) (h : inFragmentB ts = true) (out : List Sx) :
+    (∃ f, expandArray Table.generated f (staleOf ts) ts [] = some out) ↔ Stmts documented (staleOf ts) ts out := by
+  rw [expandArray_iff (staleOf ts) ts hne (frag_of_B h) (noFor_of_B h) [] out]
+  constructor
+  · rintro ⟨xs, hst, rfl⟩; simpa using hst
+  · intro hst; exact ⟨out, hst, by simp⟩
+
+/-- With the fuel the driver uses: whenever `expandBlock` (Pratt model) and `parseBlock` (stratified
+specification) both return, they return the same statements. (That their fuel always suffices is
+not proved; `pratt_eq_stratified_partial` and the correspondence check it.) -/
+theorem expandBlock_eq_parseBlock (ts : List Sx) (hne : ts ≠ []) (h : inFragmentB ts = true) (o1 o2 : List Sx)
+    (h1 : expandBlock Table.generated ts = some o1) (h2 : parseBlock documented ts = some o2) : o1 = o2 := by
+  have a := (expand_iff_statements ts hne h o1).1 ⟨_, h1⟩
+  have b : Stmts documented (staleOf ts) ts o2 := statements_sound _ _ _ _ _ h2
+  exact Stmts_det a b
+
+/-- non-vacuity: a long mixed list is in the fragment, and both sides return -/
+example : inFragmentB [.sym "a", .sym "=", .sym "b", .sym "or", .sym "not", .sym "c", .sym "<", .sym "d", .sym "+", .sym "e",
+    .sym "*", .sym "-", .sym "f", .sym "**", .dot "g.h", .arr [.sym "i", .sym "+", .lit "1"], .dot ".k", .semi, .sym "x", .sym "++"] = true := by
   decide +kernel
 
 /-! ### lex_spacing: a legal spacing of a token sequence lexes to that token sequence
@@ -252,27 +323,30 @@ theorem infix_text_expands (T : Table) (x : Src) (xs : List Src) (hok : okL (x :
     (InfixFront.blockOf (Spacing.renderItems items)).bind (expandBlock T) = expandBlock T (blockSx (x :: xs)) := by
   rw [infix_text_tokens x xs hok items hitems hlegal]; rfl
 
-/-- THE FULL END-TO-END STATEMENT: the text of every block in every legal spacing expands to the
-statements the stratified grammar of the documented levels gives for its token list (when the
-specification speaks about the list: `inScope`). -/
-def TextMeansStratified : Prop :=
-  ∀ (x : Src) (xs : List Src) (items : List Spacing.Item), okL (x :: xs) = true →
-    items.map (·.2) = Src.flat (.block (x :: xs)) → Spacing.legal '\x00' items = true →
-    inScope documented (blockSx (x :: xs)) = true →
-    sameRes ((InfixFront.blockOf (Spacing.renderItems items)).bind (expandBlock Table.generated))
-            (parseBlock documented (blockSx (x :: xs))) = true
-
-/-- PARTIAL: proved for every block and every legal spacing whose token list the Pratt model and
-the stratified specification agree on (`agree`: kernel-checked for the short lists of
-`pratt_eq_stratified_partial`; what is missing for all lists is `PrattEqStratified`, the induction
-on the length of the token list). The lexer and parser stages are proved for all texts. -/
-theorem text_means_stratified_partial (x : Src) (xs : List Src) (items : List Spacing.Item) (hok : okL (x :: xs) = true)
+/-- **text_means_stratified** — END TO END, unbounded: for every non-empty block `{ xs }` (source tree of
+any size and depth), every legal spacing `items` of its tokens, when the token array is in the
+fragment: the text is lexed and parsed (models of lexer.go, parser.go) to the token array
+`blockSx xs`, and `InfixExpandArray` (model of pratt.go, regenerated table) returns the statement list
+`out` for it iff `out` is the list of statements the stratified grammar of the documented levels
+gives — whatever the spacing. -/
+theorem text_means_stratified (x : Src) (xs : List Src) (items : List Spacing.Item) (hok : okL (x :: xs) = true)
     (hitems : items.map (·.2) = Src.flat (.block (x :: xs))) (hlegal : Spacing.legal '\x00' items = true)
-    (hin : inScope documented (blockSx (x :: xs)) = true) (hagree : agree (blockSx (x :: xs)) = true) :
-    sameRes ((InfixFront.blockOf (Spacing.renderItems items)).bind (expandBlock Table.generated))
-            (parseBlock documented (blockSx (x :: xs))) = true := by
-  rw [infix_text_expands Table.generated x xs hok items hitems hlegal]
-  simpa [agree, hin] using hagree
+    (hfrag : inFragmentB (blockSx (x :: xs)) = true) :
+    InfixFront.blockOf (Spacing.renderItems items) = some (blockSx (x :: xs)) ∧
+    ∀ out, (∃ f, expandArray Table.generated f (staleOf (blockSx (x :: xs))) (blockSx (x :: xs)) [] = some out) ↔
+      Stmts documented (staleOf (blockSx (x :: xs))) (blockSx (x :: xs)) out :=
+  ⟨infix_text_tokens x xs hok items hitems hlegal,
+   fun out => expand_iff_statements _ (blockSx_ne_nil x xs hok) hfrag out⟩
+
+/-- … and with the fuel the driver uses: the statements `expandBlock` returns for the TEXT are those
+`parseBlock` returns for the token list, whenever both return. -/
+theorem text_expandBlock_eq_parseBlock (x : Src) (xs : List Src) (items : List Spacing.Item) (hok : okL (x :: xs) = true)
+    (hitems : items.map (·.2) = Src.flat (.block (x :: xs))) (hlegal : Spacing.legal '\x00' items = true)
+    (hfrag : inFragmentB (blockSx (x :: xs)) = true) (o1 o2 : List Sx)
+    (h1 : (InfixFront.blockOf (Spacing.renderItems items)).bind (expandBlock Table.generated) = some o1)
+    (h2 : parseBlock documented (blockSx (x :: xs)) = some o2) : o1 = o2 := by
+  rw [infix_text_expands Table.generated x xs hok items hitems hlegal] at h1
+  exact expandBlock_eq_parseBlock _ (blockSx_ne_nil x xs hok) hfrag o1 o2 h1 h2
 
 private def exSrc : List Src := [.tok (nm "a"), .tok (op "+"), .tok (nm "b"), .tok (op "*"), .tok (neg "1")]
 private def exItems : List Spacing.Item :=
@@ -285,10 +359,13 @@ private theorem exSx : blockSx exSrc = [.sym "a", .sym "+", .sym "b", .sym "*", 
   simp [blockSx, exSrc, elems, toSexp, tokSexp, expTok, nm, op, neg, Tok.text, Tok.dotted, Sexp.listSx, Sexp.toSx, Sexp.isComment, h]
   decide
 
-/-- non-vacuity: the text `{a+b*-1}` satisfies every hypothesis of `text_means_stratified_partial` -/
+/-- non-vacuity: the text `{a+b*-1}` satisfies every hypothesis of `text_means_stratified`, and both
+sides return `(+ a (* b -1))` -/
 example : okL exSrc = true ∧ exItems.map (·.2) = Src.flat (.block exSrc) ∧ Spacing.legal '\x00' exItems = true ∧
     String.ofList (Spacing.renderItems exItems) = "{a+b*-1}" ∧
-    inScope documented (blockSx exSrc) = true ∧ agree (blockSx exSrc) = true := by
+    inFragmentB (blockSx exSrc) = true ∧ agree (blockSx exSrc) = true ∧
+    sameRes (expandBlock Table.generated (blockSx exSrc))
+      (some [.list [.sym "+", .sym "a", .list [.sym "*", .sym "b", .lit "-1"]]]) = true := by
   rw [exSx]; decide +kernel
 
 end LexSpacing
